@@ -30,7 +30,7 @@ RULE = (
 )
 
 NAME_POOL = ["pt", "jet_pt", "JetPt", "n", "x1", "jet-pt", "jet pt", "a.b", "2nd", "pt/GeV", "weight[0]", "e+e-", "col", "value", "isGood?", "m_{jj}", "pT (GeV)", "_u", "__v", "l1;l2"]
-TREES = ["mytree", "analysis", "t1", "Events", "my_tree_2"]
+TREES = ["mytree", "analysis", "t1", "Events", "my_tree_2", "nominal ", " loose", "run  2", "jets\tcalibrated", "a b"]
 FILES = ["out.root", "ANALYSIS.root", "junk.root", "x"]
 
 
